@@ -309,7 +309,7 @@ def run_compiler_check(ctx, res, prop):
         for optn in opts:
             for unc in ((True, False) if prop == "C02" else (True,)):
                 jobs.append((label, kind, payload, optn, unc, max_in))
-    with mp.Pool(16 if thorough else 8) as pool:
+    with mp.Pool(16) as pool:
         outs = pool.map(_worker, jobs, chunksize=4)
     reqs, idx = [], []
     for k, (job, out) in enumerate(zip(jobs, outs)):
